@@ -12,7 +12,7 @@
  *   divs <q0> .. <q63>                real start_pass_fdctmgr on that table
  *   fdct <v0> .. <v63>                DCTELEM workspace values
  *   idct <c0> .. <c63> | <q0> .. <q63>
- *   rt <s0> .. <s63> | <q0> .. <q63>  samples -> convsamp,fdct,quantize -> idct
+ *   rt <s0> .. <s63> | <q0> .. <q63>  samples -> convsamp,fdct,quantize -> idct; prints workspace | coefs | samples
  *   rlt <lo> <hi>                     IDCT_range_limit(cinfo)[lo..hi]
  *   qsweep <dlo> <dhi> <xmax>         (8-bit, harness only) exhaustive oracle
  */
@@ -269,6 +269,8 @@ int main(int argc, char **argv)
       run_idct(coef, out, out2, &have2);
       if (have2 && memcmp(out, out2, sizeof(out))) same = 0;
       printf("rt");
+      for (i = 0; i < 64; i++) printf(" %ld", (long)ws[i]);
+      printf(" |");
       for (i = 0; i < 64; i++) printf(" %d", (int)coef[i]);
       printf(" |");
       for (i = 0; i < 64; i++) printf(" %d", (int)out[i]);
